@@ -6,7 +6,7 @@ from common import hx, setup_repo_import
 from vloop import MemWriter, Stall, vrun
 
 ID = "C19"
-GENS = []
+GENS = ["c19_lines"]
 PROOF = "Gallia.Proofs.C19"
 DRIVER = "c19"
 ORACLE = True
